@@ -72,6 +72,10 @@ CHECKS['C13'] = dict(
     text='Clean generated schemas must compile and load; the same schemas with one injected static error of each kind at every position must raise SemanticError; every single-field corruption of compiled models is loaded and an independent re-check of the six documented sanity rules decides whether LvsModelError is demanded; accepted models are queried under an interpreter-step budget (sys.monitoring) to decide termination.',
     design_ref='DESIGN.md 3/C13', technique='fault injection (static errors, model corruption) with an independent sanity-rule oracle and sys.monitoring step budgets for termination',
     note='termination = bounded interpreter events; corruptions outside the documented rules need not be rejected.', level='fault_enumeration')
+CHECKS['C14'] = dict(
+    text='The generator builds certificate hierarchies (depth 1..4, ECDSA/RSA) so ground truth is known, injects one deviation at one link (wrong issuer level, forged signature, substituted key, unretrievable certificate via timeout/Nack, unsigned / digest-signed element, missing key locator, locator loop, foreign hierarchy), serves certificates from a scripted server on the recording face and runs the real lvs_validator on a virtual clock; anchors that do not match the roots of trust or are not self-signed must be refused; histories over several validator instances (different anchors, default/explicit storage) are run in permuted orders and every verdict compared with ground truth, with the number of certificate fetches recorded.',
+    design_ref='DESIGN.md 3/C14', technique='runtime monitor with fault injection at every chain link and permuted multi-instance histories; verdicts compared with generator ground truth',
+    note='RSA/ECDSA links only; validity periods not in the statement; pycryptodomex common-mode.', level='fault_enumeration')
 _ALL = ['C%02d' % i for i in range(1, 21)]
 for _p in _ALL:
     if _p not in CHECKS:
